@@ -151,7 +151,7 @@ def run(prog, rep, tier):
                     writers.append((body, b.idx, i, s))
                 if s.kind == 'assign' and s.rv.r == 'aggregate' and s.rv.j.get('adt') in ('layers::encrypt::EncryptionReaderConfig', FS):
                     writers.append((body, b.idx, i, s))
-    rep.floor('R04.2.writers', len(writers), 4, 'writers of failsafe_mode / decryption_mode')
+    rep.floor('R04.2.writers', len(writers), 3, 'writers of failsafe_mode / decryption_mode')
     for body, bb, i, s in writers:
         key = 'R04.2|%s|writes-mode' % body.nkey
         if s.rv.r == 'aggregate' and s.rv.j.get('adt') == 'layers::encrypt::EncryptionReaderConfig':
@@ -175,8 +175,50 @@ def run(prog, rep, tier):
             elif e[0] == 'agg':
                 var = e[3].j.get('variant')
             want = {'failsafe_return_only_authenticated_data': 'OnlyAuthenticatedData', 'failsafe_return_data_even_unauthenticated': 'DataEvenUnauthenticated'}
-            ok = body.name in want and var == want[body.name]
-            rep.ob('R04.2', ok, key, 'setter %s stores %s' % (body.name, var) if ok else 'unexpected writer of the mode field (%s stores %s)' % (body.name, var), body.loc(bb, i))
+            if body.name in want:
+                continue      # the two public setters are decided below, on their inlined bodies
+            # a private helper of the setters (e.g. `set_failsafe_mode(relaxed)`): accepted as a writer when only the setters call it; what each setter
+            # ends up storing is decided below
+            callers = set()
+            for b2 in mla.bodies:
+                for blk2 in b2.calls():
+                    c2, e2 = resolve_call(prog, b2, blk2.term)
+                    if e2 and len(c2) == 1 and c2[0].key == body.key:
+                        callers.add(b2.name)
+            ok = body.vis != 'pub' and not body.impl_trait and bool(callers) and callers <= set(want)
+            rep.ob('R04.2', ok, key, 'private helper of the mode setters (called by %s only)' % sorted(callers) if ok else 'unexpected writer of the mode field (%s stores %s)' % (body.name, var), body.loc(bb, i))
+    # what each public setter stores, on every feasible path (constant flags handed to a shared helper are followed)
+    from ..inline import inlined_body
+    want = {'failsafe_return_only_authenticated_data': 'OnlyAuthenticatedData', 'failsafe_return_data_even_unauthenticated': 'DataEvenUnauthenticated'}
+    for sname, wv in sorted(want.items()):
+        sb = [b for b in mla.bodies if b.name == sname and b.kind != 'Closure' and (b.impl_adt or '').endswith('ArchiveReaderConfig')]
+        key = 'R04.2|mla::config::ArchiveReaderConfig::%s|writes-mode' % sname
+        if len(sb) != 1:
+            rep.ob('R04.2', False, key, 'setter %s not found' % sname)
+            continue
+        inl = inlined_body(prog, sb[0])
+        feas = reachable_ps(inl, 0)
+        stored = []
+        for bl in inl.blocks:
+            if bl.idx not in feas or bl.cleanup:
+                continue
+            for st in bl.stmts:
+                if st.kind == 'assign' and place_fields(st.place)[-1:] == ['failsafe_mode']:
+                    e = expr_of(inl, st.rv.ops[0]) if st.rv.ops else ('unknown',)
+                    if st.rv.r == 'aggregate':
+                        stored.append(st.rv.j.get('variant'))
+                    elif e[0] == 'agg':
+                        stored.append(e[3].j.get('variant'))
+                    elif st.rv.r == 'use' and st.rv.ops[0].place is not None and not st.rv.ops[0].place[1]:
+                        # the value of an `if`/`match` expression: one aggregate per arm, only the feasible arms count
+                        for (dbb, dsi, dk, dobj) in inl.defs.get(st.rv.ops[0].place[0], []):
+                            if dbb not in feas:
+                                continue
+                            stored.append(dobj.rv.j.get('variant') if dk == 'assign' and dobj.rv.r == 'aggregate' else '?')
+                    else:
+                        stored.append('?')
+        ok = bool(stored) and set(stored) == {wv}
+        rep.ob('R04.2', ok, key, 'setter %s stores %s' % (sname, wv) if ok else 'setter %s stores %s on a feasible path (documented: %s)' % (sname, sorted(set(map(str, stored))) or 'nothing', wv), sb[0].loc())
     # ArchiveReaderConfig::new / Default do not call the unauthenticated setter
     for body in mla.bodies:
         if body.impl_adt == 'config::ArchiveReaderConfig' and body.name in ('new', 'default'):
